@@ -41,15 +41,20 @@ def swapAt (a : Array FS) (i j : Nat) : Array FS :=
   let y := a[j]!
   (a.set! i y).set! j x
 
+/-- The selection at the top of the loop of `finished_state_sift_down`: index of the smallest of
+`i`, its left child, its right child (compared in the order the C code compares them). -/
+def smallest (a : Array FS) (i : Nat) : Nat :=
+  let left := 2 * i + 1
+  let right := 2 * i + 2
+  let s := if left < a.size && precedes a[left]! a[i]! then left else i
+  if right < a.size && precedes a[right]! a[s]! then right else s
+
 /-- Port of `finished_state_sift_down` (fuel ≥ height suffices; callers pass `a.size`). -/
 def siftDown (fuel : Nat) (a : Array FS) (i : Nat) : Array FS :=
   match fuel with
   | 0 => a
   | fuel + 1 =>
-    let left := 2 * i + 1
-    let right := 2 * i + 2
-    let s := if left < a.size && precedes a[left]! a[i]! then left else i
-    let s := if right < a.size && precedes a[right]! a[s]! then right else s
+    let s := smallest a i
     if s == i then a else siftDown fuel (swapAt a i s) s
 
 /-- Port of `finished_state_sift_up`. -/
@@ -87,6 +92,29 @@ def heapify (fuel : Nat) (a : Array FS) (heapSize : Nat) : Array FS × Nat :=
 /-- The heap property on the first `n` elements: no element precedes its parent. -/
 def isHeapB (a : Array FS) (n : Nat) : Bool :=
   (List.range n).all fun i => i == 0 || !precedes a[i]! a[(i - 1) / 2]!
+
+/-- The operations the cursor performs on `finished_states` (with the lazy boundary `heapSize`). -/
+inductive HOp where
+  | push (x : FS)        -- `ts_query_cursor__push_finished_state`: plain `array_push`
+  | heapify              -- `ts_query_cursor__heapify_finished_states`
+  | pop                  -- heapify; `finished_state_pop`; boundary := size      (`next_capture`)
+  | erase (i : Nat)      -- heapify; `finished_state_erase(i)`; boundary := size (`next_match`, `remove_match`)
+  | consume              -- heapify; root.consumed++; `sift_down(0)`             (`next_capture`)
+  deriving Repr
+
+def consumeRoot (a : Array FS) : Array FS :=
+  if a.size > 0 then
+    let x := a[0]!
+    siftDown a.size (a.set! 0 { x with consumed := x.consumed + 1 }) 0
+  else a
+
+/-- One operation on (array, heap boundary). -/
+def applyOp (st : Array FS × Nat) : HOp → Array FS × Nat
+  | .push x => (st.1.push x, st.2)
+  | .heapify => heapify (st.1.size + 1) st.1 st.2
+  | .pop => let a := heapPop (heapify (st.1.size + 1) st.1 st.2).1; (a, a.size)
+  | .erase i => let a := heapErase (heapify (st.1.size + 1) st.1 st.2).1 i; (a, a.size)
+  | .consume => let h := heapify (st.1.size + 1) st.1 st.2; (consumeRoot h.1, h.2)
 
 /-! ## Capture-list pool -/
 
